@@ -19,7 +19,17 @@ template <typename M, typename N>
     requires(is_integral_v<M> and not is_same_v<M, bool> and is_integral_v<N> and not is_same_v<N, bool>)
 [[nodiscard]] constexpr auto lcm(M m, N n) -> common_type_t<M, N>
 {
-    return (m * n) / gcd(m, n);
+    using R = common_type_t<M, N>;
+
+    if (m == M(0) or n == N(0)) {
+        return R(0);
+    }
+
+    // |m| / gcd(|m|, |n|) * |n| in the unsigned counterpart of R: no
+    // intermediate value exceeds the result.
+    auto const a = detail::gcd_abs<R>(m);
+    auto const b = detail::gcd_abs<R>(n);
+    return static_cast<R>((a / etl::gcd(a, b)) * b);
 }
 
 } // namespace etl
